@@ -16,7 +16,7 @@ TRUSTED = ["pyserial's comports() replaced by a generated enumeration (device, d
 ASSUMPTIONS = ["ASCII descriptor strings"]
 
 NAMES = ["", "Bot", "Axi", "AxiDraw", "Axi 2", "East", "EAST", "x", "ab", "Plotter_01", "0123456789abcdef"]
-TAGS = ["", "A1", "ABC", "Bot", "East", "X9F3", "Axi 2", "12"]
+TAGS = ["", "A1", "ABC", "Bot", "East", "X9F3", "Axi 2", "12", "AXIDRAW_ONE", "A_B", "East_Lab_2"]
 
 def _port(rng, k):
     kind = rng.random()
@@ -91,6 +91,18 @@ def run_impl(c):
            "list_l": None if ll is None else [p[0] for p in ll], "list_3": None if l3 is None else [p[0] for p in l3],
            "names_l": ebb_serial.list_named_ebbs(), "names_3": ebb3_serial.list_named_ebbs(),
            "lookups": [[ebb_serial.find_named_ebb(n), ebb3_serial.find_named(n)] for n in c["lookups"]]}
+    # "looking a board up by the name the library itself reports for it": whatever list_named_ebbs returned is looked up again; the i-th
+    # reported name belongs to the i-th listed board, and the lookup must return that board's port or an earlier port that also matches
+    def self_lookup(names, listed, finder):
+        bad = []
+        if names is None or listed is None: return bad
+        devs = [p[0] for p in ports]
+        for nm, dev in zip(names, listed):
+            if not isinstance(nm, str) or nm == "": continue
+            got = finder(nm)
+            if got is None or got not in devs or devs.index(got) > devs.index(dev): bad.append((nm, dev, got))
+        return bad
+    out["self_lookup_bad"] = self_lookup(out["names_l"], out["list_l"], ebb_serial.find_named_ebb) + self_lookup(out["names_3"], out["list_3"], ebb3_serial.find_named)
     # connect(name) on an object with a history: it discovered a (decoy) board earlier; which port does it try to open now?
     import serial
     opened = []
@@ -119,7 +131,7 @@ def _otl(v): return "None" if v is None else "(Some %s)" % clist([ctext(x) for x
 
 def coq_case(c, r):
     ports = clist(["(%s, %s, %s)" % (ctext(p[0]), ctext(p[1]), ctext(p[2])) for p in c["ports"]])
-    if "raise" in r or not r.get("same_objects", False):
+    if "raise" in r or not r.get("same_objects", False) or r.get("self_lookup_bad"):
         return "(K19 %s (Some [0%%Z]) None None None None None [] [])" % ports          # cannot satisfy the property
     lk = clist(["(%s, %s, %s)" % (_ot(n), _ot(a), _ot(b)) for n, (a, b) in zip(c["lookups"], r["lookups"])])
     ol = clist(["(%s, %s)" % (_ot(n), _ot(o)) for n, o in zip(c["lookups"], r["objlk"])])
